@@ -12,7 +12,7 @@ import (
 
 // literal segments: mostly unreserved characters; the last ones need escaping on the wire (a blank, a non-ASCII letter) or
 // are reserved characters that may stand in a path as they are
-var patLitVocab = []string{"a", "api", "v1", "x-y", "v.1", "~u", "a_b", "..a", "a..", "...", "0", "Pets", "my api", "ü", "a:b", "a@b", "(1)", "a;b=c"}
+var patLitVocab = []string{"a", "api", "v1", "x-y", "v.1", "~u", "a_b", "..a", "a..", "...", "0", "Pets", "my api", "ü", "a:b", "a@b", "(1)", "a;b=c", "a|b", "x^2", "`q`", "a\\b", "\"q\"", "<b>"}
 
 // a base path is URL text: it may also spell its own text with percent-escapes
 var litVocab = append(append([]string{}, patLitVocab...), "50%25", "my%20api")
